@@ -1,3 +1,4 @@
+import SieveModel.Generated.LexRules
 import SieveModel.Lemmas.Gating
 import SieveModel.Lemmas.Loaded
 import SieveModel.Spec.ExtensionMap
@@ -117,5 +118,10 @@ theorem tagged_argument_use_is_preceded_by_require (T : Table) (pre : List Tok) 
           e ∈ (capabilityArgs g.st.arguments).map (B.stripC 34)) := by
   obtain ⟨a, ha, hk, _, hgate⟩ := tagged_argument_needs_loaded_extension cmd sm.loaded add t v st st' defs pos k hscan
   exact ⟨a, ha, hk, fun hr e he => loaded_names_come_from_completed_requires T pre sm m h e (hgate hr e he)⟩
+
+/-- the lexer rules of `sievelib/parser.py` (names, order, patterns, flags, white space) are the modelled ones -/
+theorem lexer_is_the_modelled_one :
+    Generated.lexRuleNames = TokKind.all.map TokKind.name ∧ Generated.lexRulePatterns = TokKind.patterns ∧
+      Generated.parserPatterns = TokKind.auxPatterns := by decide
 
 end C07
